@@ -221,7 +221,7 @@ class C17(Prop):
             "connection reached Ready (so parser/fragment/deflate/closing/timer state was non-initial) and B reaches Ready.")
     assumptions = ("a previous connection's generator is either finalised before the next connect() (as persist() does) or, "
                    "for the abandon_hold histories, dropped at a stated later point; it is never resumed after the next connect()",)
-    examples = {"quick": 2500, "thorough": 50000}
+    examples = {"quick": 2500, "thorough": 150000}
 
     def strategy(self, tier):
         a = st.fixed_dictionaries({
